@@ -709,7 +709,9 @@ Proof.
   destruct P1 as [D1 B1].
   assert (G : dat (fbuf p1) ++ inq s1 = dat (fbuf p) ++ inq s) by (rewrite D1, <- app_assoc, C; reflexivity).
   destruct (negb (check_connections p1)); [intros H; inversion H; subst; auto|].
-  destruct res; intros H; inversion H; subst; cbn [fbuf bbuf p_reset p_bi p_fe]; auto.
+  destruct res; try (intros H; inversion H; subst; cbn [fbuf bbuf p_reset p_bi p_fe]; auto; fail).
+  match goal with |- context [if ?c then _ else _] => destruct c end;
+    intros H; inversion H; subst; cbn [fbuf bbuf p_reset p_bi p_fe p_fi p_fst]; auto.
 Qed.
 
 Lemma pipe_backend_readable_stream p s p' s' r :
@@ -746,7 +748,9 @@ Proof.
   induction fuel as [|fuel IH]; intros p s res p' s' e res' H; cbn [pipe_bw_loop] in H.
   - inversion H; subst; auto.
   - destruct (negb (sres_eqb res SContinue)); [inversion H; subst; auto|].
-    destruct (avail_data (fbuf p) =? 0); [inversion H; subst; auto|].
+    destruct (avail_data (fbuf p) =? 0).
+    { match type of H with context [if ?c then _ else _] => destruct c end;
+        inversion H; subst; cbn [fbuf bbuf p_reset p_bi p_fi]; auto. }
     destruct (sock_write s (dat (fbuf p))) as [[s1 n] r1] eqn:W.
     apply sock_write_spec in W. destruct W as (O & LN & I & _).
     apply IH in H. destruct H as (H1 & H2 & H3).
@@ -887,9 +891,10 @@ Qed.
 
 Lemma h_front_hup_same e e' r : is_pipe e -> h_front_hup e = (e', r) -> same_streams e e'.
 Proof.
-  intros [p P] H. unfold h_front_hup in H. rewrite P in H. cbn in H. inversion H; subst; clear H.
-  unfold same_streams, is_pipe, front_stream, back_stream. cbn [se fsock bsock e_se]. rewrite P.
-  repeat split; eauto.
+  intros [p P] H. unfold h_front_hup in H. rewrite P in H. unfold pipe_frontend_hup in H.
+  destruct (((0 <? avail_data (fbuf p)) || rr (fe p)) && has_back p); inversion H; subst; clear H;
+    unfold same_streams, is_pipe, front_stream, back_stream; cbn [se fsock bsock e_se]; rewrite P;
+    repeat split; eauto.
 Qed.
 
 Lemma set_ints_same e v w : is_pipe e ->
@@ -955,10 +960,82 @@ Proof.
   destruct (rh (fr_ev (SPipe p))).
   - destruct (h_front_hup e) as [e1 r1] eqn:E.
     assert (S1 : same_streams e e1) by (eapply h_front_hup_same; [exists p; exact P|exact E]).
-    destruct (is_continue r1); inversion H; subst; [|exact S1].
+    destruct (is_continue r1); [|inversion H; subst; exact S1].
     eapply same_streams_trans; [exact S1|].
-    destruct S1 as ([p1 P1] & _). unfold same_streams, is_pipe, front_stream, back_stream.
-    cbn [se fsock bsock e_se]. rewrite P1. cbn [set_fr_ev]. repeat split; eauto.
+    assert (S2 : same_streams e1 (e_se e1 (set_fr_ev (se e1) (set_h (fr_ev (se e1)) false)))).
+    { destruct S1 as ([p1 P1] & _). unfold same_streams, is_pipe, front_stream, back_stream.
+      cbn [se fsock bsock e_se]. rewrite P1. cbn [set_fr_ev]. repeat split; eauto. }
+    eapply same_streams_trans; [exact S2|].
+    eapply ready_loop_same; [eapply same_is_pipe; exact S2|exact H].
   - eapply ready_loop_same; [exists p; exact P|exact H].
 Qed.
 
+
+(* ------------------------------------------------------------------ *)
+(** * end-of-stream only after drain *)
+
+(** [check_connections] gives up only on bytes whose destination cannot be written any more *)
+Lemma cc_false_undeliverable p :
+  check_connections p = false ->
+  (0 < avail_data (fbuf p) -> bst p = CReadOpen \/ bst p = CClosed) /\
+  (0 < avail_data (bbuf p) -> fst_ p = CReadOpen \/ fst_ p = CClosed).
+Proof.
+  unfold check_connections. intros H. split; intros L; apply Nat.ltb_lt in L; rewrite L in H;
+    destruct (fst_ p), (bst p); cbn in H; rewrite ?orb_true_r in H; try discriminate; auto.
+Qed.
+
+Definition drained_or_undeliverable (p : pipe) : Prop :=
+  (0 < avail_data (fbuf p) -> bst p = CReadOpen \/ bst p = CClosed) /\
+  (0 < avail_data (bbuf p) -> fst_ p = CReadOpen \/ fst_ p = CClosed).
+
+Lemma reset_keeps p : drained_or_undeliverable p -> drained_or_undeliverable (p_reset p).
+Proof. intros H; exact H. Qed.
+
+Lemma pipe_readable_close_drained p s p' s' :
+  pipe_readable p s = (p', s', Close) -> ierr s = false -> drained_or_undeliverable p'.
+Proof.
+  unfold pipe_readable. intros H NE.
+  destruct (avail_space (fbuf p) =? 0); [inversion H|].
+  destruct (sock_read s (avail_space (fbuf p))) as [[s1 bs] res] eqn:R.
+  apply sock_read_spec in R. destruct R as (_ & _ & _ & _ & _ & _ & _ & _ & _ & _ & RE).
+  match type of H with context [if negb (check_connections ?q) then _ else _] => set (p1 := q) in * end.
+  destruct (negb (check_connections p1)) eqn:C1.
+  - inversion H; subst. apply reset_keeps, cc_false_undeliverable. apply negb_true_iff in C1. exact C1.
+  - destruct res.
+    + inversion H.
+    + match type of H with context [if negb (check_connections ?q) then _ else _] => set (p3 := q) in * end.
+      destruct (negb (check_connections p3)) eqn:C3; [|inversion H].
+      inversion H; subst. apply reset_keeps, cc_false_undeliverable. apply negb_true_iff in C3. exact C3.
+    + inversion H.
+    + specialize (RE eq_refl). congruence.
+Qed.
+
+Lemma pipe_backend_readable_close_drained p s p' s' :
+  pipe_backend_readable p s = (p', s', Close) -> ierr s = false -> drained_or_undeliverable p'.
+Proof.
+  unfold pipe_backend_readable. intros H NE.
+  destruct (avail_space (bbuf p) =? 0); [inversion H|].
+  destruct (negb (has_back p)); [inversion H|].
+  destruct (sock_read s (avail_space (bbuf p))) as [[s1 bs] res] eqn:R.
+  apply sock_read_spec in R. destruct R as (_ & _ & _ & _ & _ & _ & _ & _ & _ & _ & RE).
+  match type of H with context [negb (check_connections ?q)] => set (p4 := q) in * end.
+  destruct ((length bs =? 0) && sres_eqb res SClosed && negb (check_connections p4)) eqn:C1.
+  - inversion H; subst. apply reset_keeps, cc_false_undeliverable.
+    apply andb_prop in C1. destruct C1 as [_ C1]. apply negb_true_iff in C1. exact C1.
+  - destruct res.
+    + inversion H.
+    + destruct (negb (check_connections p4)) eqn:C2; [|inversion H].
+      inversion H; subst. apply reset_keeps, cc_false_undeliverable. apply negb_true_iff in C2. exact C2.
+    + inversion H.
+    + specialize (RE eq_refl). congruence.
+Qed.
+
+Lemma pipe_frontend_hup_close p p' :
+  pipe_frontend_hup p = (p', Close) ->
+  (avail_data (fbuf p) = 0 /\ rr (fe p) = false) \/ has_back p = false.
+Proof.
+  unfold pipe_frontend_hup.
+  destruct (0 <? avail_data (fbuf p)) eqn:A; destruct (rr (fe p)) eqn:B; destruct (has_back p) eqn:C;
+    cbn; intros H; inversion H; auto.
+  left. apply Nat.ltb_ge in A. split; [lia|reflexivity].
+Qed.
